@@ -471,7 +471,10 @@ def cases(tier):
         for k in ks:
             for ns in (7, 10, 25):
                 for lo, hi in ((-5e-7, 5e-7), (0.0, 8e-7), (-2e-7, np.inf),
-                               (3e-7, -1e-7), (6e-7, 0.0)):
+                               (3e-7, -1e-7), (6e-7, 0.0),
+                               # zero width away from zero: with the search
+                               # on, its value is the upper bound
+                               (5e-7, 5e-7), (9e-7, 9e-7)):
                     if tier == "quick" and ns == 25 and k == 0.5:
                         continue
                     cs.append({"kind": "plateau", "curve": curve, "k": k,
